@@ -51,6 +51,11 @@ def main():
         print(open(a.replay).read())
         return 0
     run = report.Run(prop, a.tier, seed)
+    import signal
+    limit = int(os.environ.get('VERIF_TIME_LIMIT', '1500' if a.tier == 'quick' else '14400'))
+    def on_alarm(*_):
+        raise report.Broken(f'time limit of {limit} s exceeded (a path explosion, usually through code the summaries do not know); nothing is claimed')
+    signal.signal(signal.SIGALRM, on_alarm); signal.alarm(limit)
     try:
         tree = build.Tree()
         ctx = Ctx(run, tree, a.tier, seed)
